@@ -89,7 +89,7 @@ def run_world_strict(case, ctx):
 	return {'evals': 2, 'nontrivial_count': 2 if nt else 0, 'nontrivial': nt, 'classes': sorted(classes)}
 
 
-def run_case(case, ctx):
+def run_case(case, ctx, _objs=None):
 	if case['kind'] == 'world_strict':
 		return run_world_strict(case, ctx)
 	import numpy as np
@@ -103,7 +103,17 @@ def run_case(case, ctx):
 	for i, t in enumerate(taxa):
 		t['name'] = f'Tx{i:02d}q'
 	F = Forest(taxa)
-	tobjs, gobjs = taxgen.build_orm(taxa, genome_taxa)
+	if _objs is None:
+		tobjs, gobjs = taxgen.build_orm(taxa, genome_taxa)
+	else:
+		# second phase: the SAME live objects, edited in place to the new forest (a result must reflect the forest as it is now)
+		tobjs, gobjs = _objs
+		for i, t in enumerate(taxa):
+			tobjs[i].distance_threshold = t['thr']
+			tobjs[i].report = bool(t['report'])
+			tobjs[i].parent = None if t['parent'] is None else tobjs[t['parent']]
+			if t.get('name') is not None:
+				tobjs[i].name = t['name']
 	tindex = {id(t): i for i, t in enumerate(tobjs)}
 	gindex = {id(g): i for i, g in enumerate(gobjs)}
 	ti = lambda o: None if o is None else tindex.get(id(o), 'foreign')
@@ -198,7 +208,23 @@ def run_case(case, ctx):
 		if ti(c) != exp_cons or {ti(o) for o in others} != exp_others:
 			raise Violation('consensus_fn', f'consensus_taxon({list(to)}) = ({ti(c)}, {sorted(ti(o) for o in others)}), expected '
 			                f'({exp_cons}, {sorted(exp_others)}); lineages {[F.lineage(m) for m in ml]}', one)
-	classes = []
+	extra_evals = 0
+	edited = False
+	if case.get('edits') and _objs is None:
+		taxa2 = [dict(t) for t in case['taxa']]
+		for e in case['edits']:
+			i = e['i'] % len(taxa2)
+			if e.get('thr') is not None:
+				taxa2[i]['thr'] = e['thr']
+			if e.get('parent') is not None and i > 0:
+				taxa2[i]['parent'] = None if e['parent'] < 0 else e['parent'] % i      # parents keep smaller indices: no cycles
+		case2 = dict(case)
+		case2['taxa'] = taxa2
+		case2.pop('edits')
+		r2 = run_case(case2, ctx, _objs=(tobjs, gobjs))
+		extra_evals = r2.get('evals', 0)
+		edited = True
+	classes = ['edited_in_place_then_reclassified'] if edited else []
 	if not M:
 		classes.append('no_matches')
 	elif not ok:
@@ -213,7 +239,7 @@ def run_case(case, ctx):
 	classes.append(f'matched={min(len(M), 5)}')
 	classes.append('orders=all' if n <= 6 else 'orders=200')
 	nt = len(M) >= 2
-	return {'evals': len(orders) + len(torders), 'nontrivial_count': (len(orders) + len(torders)) if nt else 0, 'nontrivial': nt, 'classes': classes}
+	return {'evals': len(orders) + len(torders) + extra_evals, 'nontrivial_count': (len(orders) + len(torders) + extra_evals) if nt else 0, 'nontrivial': nt, 'classes': classes}
 
 
 @st.composite
@@ -235,7 +261,8 @@ def gen_case(draw, tier):
 	ng = draw(st.integers(1, 7))
 	dists = draw(st.lists(taxgen.DIST, min_size=ng, max_size=ng))
 	genomes = draw(st.lists(st.integers(0, len(taxa) - 1), min_size=ng, max_size=ng))
-	return {'kind': 'strict', 'taxa': taxa, 'genomes': genomes, 'dists': dists, 'perm_seed': draw(st.integers(0, 1000))}
+	edits = draw(st.one_of(st.none(), st.none(), st.lists(st.fixed_dictionaries({'i': st.integers(0, 20), 'thr': st.one_of(st.none(), thr), 'parent': st.one_of(st.none(), st.integers(-1, 20))}), min_size=1, max_size=3)))
+	return {'kind': 'strict', 'taxa': taxa, 'genomes': genomes, 'dists': dists, 'perm_seed': draw(st.integers(0, 1000)), 'edits': edits}
 
 
 def strategy(tier):
